@@ -705,6 +705,24 @@ def g_sens_real(rng, shape):
 
 
 def g_scene(rng):
+    sc = _g_scene(rng)
+    if rng.random() < 0.15:          # everything static, one observer row
+        for o in sc["objs"]:
+            o["pos"], o["rotvec"] = o["pos"][:1], o["rotvec"][:1]
+            if o["cls"] == "Sensor":
+                o["pixel"] = rng.choice([None, [0.1, -0.2, 0.3], [[0.1, -0.2, 0.3]]])
+        if "sens" in sc["observers"]:
+            sc["observers"]["sens"] = sc["observers"]["sens"][:1]
+        else:
+            sc["observers"]["arr"] = sc["observers"]["arr"][:1] if rng.random() < 0.5 else sc["observers"]["arr"][0]
+            if sc["observers"]["as"] == "int-ndarray":
+                sc["observers"]["as"] = "ndarray"
+        if rng.random() < 0.6:
+            sc["sources"] = sc["sources"][:1]
+    return sc
+
+
+def _g_scene(rng):
     nl, ns = rng.randint(1, 4), rng.randint(1, 3)
     shape0 = rng.choice([None, [3], [2, 3], [2, 2, 3]])
     mixed = rng.random() < 0.25
@@ -844,7 +862,9 @@ def assemble(sc, objs):
     arrays = {}
     if "arr" in ob:
         a = ob["arr"]
-        observers = {"list": a, "tuple": tuple(tuple(r) for r in a), "ndarray": np.array(a, dtype=float),
+        def tup(x):
+            return tuple(tup(y) for y in x) if isinstance(x, (list, tuple)) else x
+        observers = {"list": a, "tuple": tup(a), "ndarray": np.array(a, dtype=float),
                      "int-ndarray": np.rint(np.array(a)).astype(int) + 3}[ob["as"]]
         if isinstance(observers, np.ndarray):
             arrays["observers"] = observers
@@ -983,6 +1003,56 @@ def search_scenes(ctx, n):
             already = any(f["signature"] == sig for f in ctx.impl_failures)
             small = sc if already else shrink_scene(sc, sig)
             ctx.impl_fail(sig, text, {"kind": "scene", "scene": small})
+
+
+# ---------------------------------------------------------------------- the smallest cases, systematically
+def smallest_scenes():
+    """every class ALONE, static, with exactly ONE observer point (as a bare point, a (1,3) array, a sensor
+    without pixel, single-pixel sensors), every field, every entry point; both vertex orders of a
+    Tetrahedron, checked and unchecked meshes.  One source x one observer row is where a no-copy shortcut
+    (group of one, nothing to tile) would hand an object's own array to the core functions."""
+    leaves = []
+    for cls in REAL:
+        base = {"cls": cls, "pos": [[0.3, -0.2, 0.1]], "rotvec": [[0.2, -0.4, 0.3]], "missing": None}
+        if cls == "Custom":
+            leaves += [dict(base, mode="ok"), dict(base, mode="none"), dict(base, mode="raise")]
+        elif cls == "Tetrahedron":
+            leaves += [dict(base, verts=TETRA), dict(base, verts=TETRA_NEG)]
+        elif cls == "TriangularMesh":
+            leaves += [dict(base, faces=FACES, checks="default"), dict(base, faces=FACES_BAD, checks="skip")]
+        else:
+            leaves.append(base)
+    pt = [1.7, 0.4, -0.9]
+    observers = [("point", {"arr": pt, "as": "list"}), ("point-nd", {"arr": pt, "as": "ndarray"}),
+                 ("row-nd", {"arr": [pt], "as": "ndarray"}),
+                 ("sensor", None), ("sensor-pix3", [0.1, 0.2, -0.1]), ("sensor-pix13", [[0.1, 0.2, -0.1]])]
+    out = []
+    for leaf in leaves:
+        for oname, ob in observers:
+            is_sens = oname.startswith("sensor")
+            sens = {"cls": "Sensor", "pos": [pt], "rotvec": [[0.1, 0.3, -0.2]], "pixel": ob if is_sens else None,
+                    "hand": "right"}
+            for field in "BHJM":
+                for entry in (["top", "src", "coll"] + (["sens"] if is_sens else [])):
+                    sc = {"objs": [dict(leaf), sens], "colls": [], "sources": [{"obj": 0}],
+                          "observers": {"sens": [1]} if is_sens else dict(ob), "entry": entry, "field": field,
+                          "sumup": False, "squeeze": True, "pixel_agg": None, "output": "ndarray",
+                          "in_out": "auto", "kwargs": False}
+                    if entry == "coll":
+                        sc["colls"] = [{"kids": [0], "pos": [[0, 0, 0]], "rotvec": [[0, 0, 0]], "nest": False}]
+                        sc["sources"] = [{"coll": 0}]
+                    out.append(sc)
+    return out
+
+
+def check_smallest(ctx):
+    for sc in smallest_scenes():
+        res, code = check_scene(sc)
+        ctx.case(("smallest", json.dumps(sc, sort_keys=True)), True)
+        ctx.bump("smallest-outcome:" + CODE_NAME[code])
+        for sig, text in res:
+            ctx.impl_fail(sig + ":smallest", text + f" [{sc['objs'][0]['cls']} alone, one observer point, "
+                          f"entry {sc['entry']}]", {"kind": "scene", "scene": sc})
 
 
 # ---------------------------------------------------------------------- histories: call -> public change -> call vs fresh twin
@@ -1300,6 +1370,7 @@ def run(ctx):
     run_guarded(ctx, lambda: run_corpus(ctx), "C08 corpus")
     big = bool(ctx.broken)
     run_guarded(ctx, lambda: search_scenes(ctx, ctx.n(500, 6000) * (3 if big else 1)), "C08 scene search")
+    run_guarded(ctx, lambda: check_smallest(ctx), "C08 smallest cases")
     run_guarded(ctx, lambda: search_histories(ctx, ctx.n(300, 4000) * (2 if big else 1)), "C08 history search")
     run_guarded(ctx, lambda: check_dict_iface(ctx, ctx.n(120, 1500)), "C08 functional interface arrays")
     run_guarded(ctx, lambda: check_object_arrays(ctx), "C08 object arrays")
